@@ -20,7 +20,7 @@ import LitexProofs.Export.Adapt
   | csr.h accessors <reg>_read/_write                   | accRead, accWriteWords, hwWords, hwWrite| accessor_roundtrip_big/_partial            | `accread/accwrite/hwwords/hwwrite`, stores/loads on the real SoC |
   | csr.h field macros / _extract / _replace            | fieldExtract                            | field_extract_exact                        | `fieldextract`; _replace: oracle only |
   | get_csr_svd (csr.svd): registers, bases, interrupts | svdAddrsK                               | json_csv_svd_agree(_kinds), irq_export_*   | `export` S part; SVD memoryRegions/constants/interrupt: oracle |
-  | CSR memories (csr_bases of windows, <mem>_page)     | sramSel, sramSelWide, wideWord/wideSub  | mem_window(_paged), wide_mem_roundtrip_head| `sramsel/sramwide/wideword/widesub/sweep`; paged AND wide at once: not driven (open gap) |
+  | CSR memories (csr_bases of windows, <mem>_page)     | sramSel, sramSelWide, wideWord/wideSub  | mem_window(_paged), wide_mem_window_paged, wide_mem_roundtrip_head | `sramsel/sramwide/wideword/widesub/sweep`; wide AND paged memories driven through their page register |
   | get_mem_header (mem.h *_BASE/_SIZE, MEM_REGIONS str) | memExport, selectedSlaves               | region_export_decoded_partial              | `slaves` call; MEM_REGIONS string: oracle |
   | get_linker_regions (regions.ld), get_memory_x       | memExport (same triples)                | region_export_decoded_partial              | oracle: each bus region exactly once, _stext = reset address inside a region |
   | get_linker_output_format (output_format.ld)         | -                                       | -                                          | oracle (stub CPU's format string) |
@@ -223,6 +223,48 @@ example : 0x400 / 4 = 2 ^ 8 ∧ sramPageBits 0x400 256 = 0 ∧ sramSel 0x400 1 2
     2 ^ (bitsFor (512 - 1) - sramPageBits 0x400 512) = 0x400 / 4 ∧
     2 ^ (bitsFor (768 - 1) - sramPageBits 0x400 768) = 0x400 / 4 ∧
     sramSel 0x400 2 768 (300 / 256) (bridgeAdr 32 14 (0x400 * 2 + 4 * (300 % 256))) = some 300 := by decide
+
+/-- **wide_mem_window_paged.**  A CSR memory whose word is `n` bus words wide AND that is deeper than a page: CSR-word index
+    `i = w·n + k` (sub-word `k` of memory word `w`) answers at `base + 4·(i mod paging/4)` with the `<mem>_page` register holding
+    `i / (paging/4)`.  Hypothesis `hwin`: the window the hardware cuts out (`2^(len(port.adr) - page_bits)` memory words of `n`
+    sub-words) is one page — decidable, true for every memory the grid builds (see the example). -/
+theorem wide_mem_window_paged (paging aw page depth n i : Nat) (h4 : paging % 4 = 0) (hn : 0 < n)
+    (hwin : n * 2 ^ (bitsFor (depth - 1) - clog2 ((depth * n + paging / 4 - 1) / (paging / 4))) = paging / 4)
+    (hpv : i / (paging / 4) < 2 ^ clog2 ((depth * n + paging / 4 - 1) / (paging / 4))) (hloc : page < nLocs 32 aw paging) :
+    sramSelWide paging page depth n (i / (paging / 4)) (bridgeAdr 32 aw (paging * page + 4 * (i % (paging / 4))))
+      = some (i / n, i % n) := by
+  rw [nLocs_32 aw paging h4] at hloc
+  have hM := Nat.two_pow_pos (bitsFor (depth - 1) - clog2 ((depth * n + paging / 4 - 1) / (paging / 4)))
+  generalize hMd : 2 ^ (bitsFor (depth - 1) - clog2 ((depth * n + paging / 4 - 1) / (paging / 4))) = M at hwin hM
+  have hP : 0 < paging / 4 := by rw [← hwin]; exact Nat.mul_pos hn hM
+  have hlt : i % (paging / 4) < paging / 4 := Nat.mod_lt _ hP
+  rw [bridgeAdr_32 aw paging page _ h4 hlt hloc]
+  have h1 : (page * (paging / 4) + i % (paging / 4)) / (paging / 4) = page := by
+    rw [Nat.mul_comm, Nat.mul_add_div hP, Nat.div_eq_of_lt hlt, Nat.add_zero]
+  unfold sramSelWide
+  rw [h1, if_pos rfl]
+  simp only [hMd, Nat.mod_eq_of_lt hpv, Option.some.injEq, Prod.mk.injEq]
+  generalize hr : i % (paging / 4) = r at hlt
+  have hi : i = n * (M * (i / (paging / 4))) + r := by
+    have := Nat.div_add_mod i (paging / 4); rw [hr] at this
+    have e : paging / 4 * (i / (paging / 4)) = n * (M * (i / (paging / 4))) := by rw [← Nat.mul_assoc, hwin]
+    omega
+  have hrn : r / n < M := Nat.div_lt_of_lt_mul (by rw [hwin]; exact hlt)
+  have ha : page * (paging / 4) + r = n * (M * page) + r := by
+    have e : page * (paging / 4) = n * (M * page) := by rw [← hwin, Nat.mul_comm page, Nat.mul_assoc]
+    omega
+  constructor
+  · rw [ha, Nat.mul_add_div hn, Nat.mul_add_mod, Nat.mod_eq_of_lt hrn]
+    conv_rhs => rw [hi, Nat.mul_add_div hn]
+    rw [Nat.add_comm, Nat.mul_comm]
+  · rw [ha, Nat.mul_add_mod]
+    conv_rhs => rw [hi, Nat.mul_add_mod]
+
+/-- Non-vacuity: 96 and 65 words of 4 CSR words in a 256-word page (two pages): `hwin` holds, and CSR-word index 300 of the first
+    (memory word 75, sub-word 0) is page 1, offset 44. -/
+example : 4 * 2 ^ (bitsFor (96 - 1) - clog2 ((96 * 4 + 0x400 / 4 - 1) / (0x400 / 4))) = 0x400 / 4 ∧
+    4 * 2 ^ (bitsFor (65 - 1) - clog2 ((65 * 4 + 0x400 / 4 - 1) / (0x400 / 4))) = 0x400 / 4 ∧
+    sramSelWide 0x400 3 96 4 (300 / 256) (bridgeAdr 32 14 (0x400 * 3 + 4 * (300 % 256))) = some (75, 0) := by decide
 
 /-- **wide_mem_roundtrip.**  A CSR memory word `n` bus words wide: writing sub-words `x₀ … xₙ₋₁` at the successive
     addresses assembles a word from which sub-word 0 (the first address) reads back as `x₀` — for every width, every
